@@ -104,6 +104,7 @@ fn stress(ctx: &Ctx, out: &mut Outcome, run_seed: u64, r: &mut Rng) {
         link_up: vec![LinkCfg::clean()],
         link_down: vec![LinkCfg::clean()],
         shuffle_phases: false,
+        skip_send_pct: 0,
     };
     let mut c = RenetClient::new(cfg.connection_config());
     c.set_connected();
